@@ -892,6 +892,13 @@ func pkgPathOf(f *ssa.Function) string {
 	if f.Pkg != nil && f.Pkg.Pkg != nil {
 		return f.Pkg.Pkg.Path()
 	}
+	// an instance of a generic function, a function literal: where it was written
+	if o := f.Origin(); o != nil && o != f {
+		return pkgPathOf(o)
+	}
+	if f.Parent() != nil {
+		return pkgPathOf(f.Parent())
+	}
 	return ""
 }
 
